@@ -1,6 +1,6 @@
 SPECIFICATION Spec
 CONSTANTS
-  KeyIsAddress = FALSE
+  KeyMode = "unique"
   MaxOps = 8
 INVARIANT Isolated
 VIEW StateView
